@@ -18,6 +18,27 @@ import numpy as np
 
 from harness import core
 
+_NP_IFFT2 = np.fft.ifft2          # captured before any library call
+
+
+class PlannedFFT:
+    """a user-supplied accelerated inverse transform of the kind phase-screen functions accept as FFT= (fixed signature, 2-D)"""
+
+    def __call__(self, a):
+        return _NP_IFFT2(a)
+
+
+def other_fourier_users(ao):
+    """library calls that use Fourier machinery of their own, made BETWEEN transform checks: the pair must not notice"""
+    from aotools.turbulence import phasescreen as ps
+    f = PlannedFFT()
+    ps.ft_phase_screen(0.2, 8, 0.1, 20.0, 0.01, FFT=f, seed=3)
+    ps.ft_sh_phase_screen(0.2, 8, 0.1, 20.0, 0.01, FFT=f, seed=3)
+    ps.ft_phase_screen(0.2, 8, 0.1, 20.0, 0.01, seed=3)
+    ao.opticalpropagation.angularSpectrum(np.ones((8, 8), complex), 500e-9, 0.01, 0.01, 10.0)
+    ao.image_processing.correlation_centroid(np.arange(16.0).reshape(4, 4) % 5, (np.arange(16.0).reshape(4, 4) % 3) + 1)
+
+
 FOURIER_API = ["ft", "ift", "ft2", "ift2", "rft", "irft", "rft2", "irft2"]
 BATCHES = [(), (2,), (1, 2)]
 DELTAS = [0.5, 1.0, 2.0]
@@ -93,6 +114,28 @@ def check_pair(mod, label, tabs, N, rng):
                 bad.append(("%s.ft2:parseval" % label, dict(N=N, delta=delta)))
         if bad:
             break
+    # narrow integer / single-precision samples with integer-valued spacings, and nested sequences instead of arrays: the
+    # transform of the same numbers (values up to 200, so that value * delta^2 does not fit the narrow types)
+    if N >= 2:
+        xs = rng.integers(0, 201, size=(N, N))
+        for dlt in (2, 3.0, np.int64(2)):
+            dff = 1.0 / (N * float(dlt))
+            ref2 = np.asarray(mod.ft2(xs.astype(complex), float(dlt)))
+            ref1 = np.asarray(mod.ft(xs[0].astype(complex), float(dlt)))
+            for nm, arr in (("uint8", xs.astype(np.uint8)), ("int16", xs.astype(np.int16)), ("float32", xs.astype(np.float32)),
+                            ("nested-list", xs.tolist()), ("tuple-of-tuples", tuple(map(tuple, xs.tolist())))):
+                keep = np.array(arr, copy=True)
+                g2 = np.asarray(mod.ft2(arr, dlt))
+                gb = np.asarray(mod.ift2(g2.copy(), dff))
+                g1 = np.asarray(mod.ft(arr[0], dlt))
+                tl = 3e-5 if nm == "float32" else 1e-11
+                if g2.shape != ref2.shape or not np.allclose(g2, ref2, rtol=0, atol=tl * N * np.abs(ref2).max()) \
+                        or not np.allclose(gb, xs, rtol=0, atol=tl * N * 200) or not np.allclose(g1, ref1, rtol=0, atol=tl * N * np.abs(ref1).max()) \
+                        or not np.array_equal(np.asarray(arr), keep):
+                    bad.append(("%s.ft2:input-type-%s:integer-spacing" % (label, nm), dict(N=N, delta=repr(dlt))))
+                    break
+            if bad:
+                break
     # real, integer and single-precision inputs: the transform of the same numbers
     if N >= 2:
         xr = rng.integers(-4, 5, size=(2, N, N))
@@ -283,6 +326,9 @@ def run(run):
     for n in FOURIER_API:
         setattr(pkg, n, getattr(ao, n))
     for N in range(1, maxlen + 1):
+        if N in (1, 4):
+            with np.errstate(all="ignore"):
+                other_fourier_users(ao)
         for label, mod in (("fouriertransform", FT), ("aotools", pkg)):
             with np.errstate(all="ignore"):
                 bad = check_pair(mod, label, tabs, N, rng)
@@ -319,6 +365,7 @@ def replay(run, case):
         setattr(pkg, n, getattr(ao, n))
     mod = FT if case["label"] == "fouriertransform" else pkg
     rng = np.random.default_rng(run.seed)
+    other_fourier_users(ao)
     bad = check_pair(mod, case["label"], tabs, case["N"], rng)
     bad += check_real(mod, case["label"], case["N"], rng) if case["label"] == "fouriertransform" else []
     for key, detail in bad:
